@@ -88,3 +88,51 @@ func ValidateDocWith(doc *loads.Document, o SpecOpts, formats strfmt.Registry) (
 	out.Separate = Msgs(warns.Errors)
 	return out
 }
+
+// SpecSession keeps one long-lived SpecValidator per option set: the same validator object is used
+// for every document handed to it, one after the other (a SpecValidator is not single-use).
+type SpecSession struct {
+	validators map[SpecOpts]*validate.SpecValidator
+	Count      int
+}
+
+// NewSpecSession creates an empty session.
+func NewSpecSession() *SpecSession { return &SpecSession{validators: map[SpecOpts]*validate.SpecValidator{}} }
+
+// Validate validates a freshly loaded document with the session's reused validator.
+func (ss *SpecSession) Validate(text []byte, o SpecOpts) (out SpecOutcome) {
+	defer func() {
+		if e := recover(); e != nil {
+			out.Loaded = true
+			out.Panic = fmt.Sprint(e)
+			out.Stack = string(debug.Stack())
+			delete(ss.validators, o) // a validator which panicked is not reused
+			if ResetPoolsOnPanic {
+				validate.VerifResetPools()
+			}
+		}
+	}()
+	doc, err := LoadSpec(text)
+	if err != nil {
+		return SpecOutcome{LoadErr: err.Error()}
+	}
+	v := ss.validators[o]
+	if v == nil {
+		v = validate.NewSpecValidator(doc.Schema(), strfmt.Default)
+		v.SetContinueOnErrors(o.Continue)
+		v.Options.StrictPathParamUniqueness = o.Strict
+		ss.validators[o] = v
+	}
+	ss.Count++
+	errs, warns := v.Validate(doc)
+	out.Loaded = true
+	if errs == nil || warns == nil {
+		out.Panic = "Validate returned a nil result"
+		return out
+	}
+	out.Valid = errs.IsValid()
+	out.Errors = Msgs(errs.Errors)
+	out.Warnings = Msgs(errs.Warnings)
+	out.Separate = Msgs(warns.Errors)
+	return out
+}
